@@ -506,7 +506,12 @@ func (c *Ctx) isLoopCtx(m *reconnModel, v ssa.Value) bool {
 		return true
 	}
 	if set := c.loopCtxValues(m); set != nil {
-		return set[v] || set[c.Resolve(v)]
+		if set[v] || set[c.Resolve(v)] {
+			return true
+		}
+		if u, ok := v.(*ssa.UnOp); ok && u.Op == token.MUL && set[u.X] {
+			return true
+		}
 	}
 	return false
 }
@@ -552,9 +557,31 @@ func (c *Ctx) loopCtxValues(m *reconnModel) map[ssa.Value]bool {
 				changed = true
 			}
 			for _, e := range phi.Edges {
-				switch e.(type) {
+				switch x := e.(type) {
 				case *ssa.Phi, *ssa.Parameter:
 					if !set[e] {
+						set[e] = true
+						changed = true
+					}
+				case *ssa.UnOp:
+					// the loop context passed through a helper that was inlined: a local initialised with it, possibly rebound to
+					// context.Background() (in the once-only block), and read back
+					cell, isCell := x.X.(*ssa.Alloc)
+					if x.Op != token.MUL || !isCell || set[cell] {
+						continue
+					}
+					ok := len(c.cellStores[cell]) > 0
+					for _, st := range c.cellStores[cell] {
+						if set[st.Val] || set[c.Resolve(st.Val)] {
+							continue
+						}
+						if call, _ := c.asCall(st.Val); call != nil && isStdCall(&call.Call, "context", "Background") {
+							continue
+						}
+						ok = false
+					}
+					if ok {
+						set[cell] = true
 						set[e] = true
 						changed = true
 					}
@@ -582,6 +609,36 @@ func (c *Ctx) ruleLoopOutlivesConnectCtx(rr *RuleRep) {
 		// a successful Connect, and no join takes anything else that is new
 		var rebound ssa.Instruction
 		for v := range set {
+			if cell, isCell := v.(*ssa.Alloc); isCell {
+				// a member variable rebound to context.Background(), directly or in a once-only block, behind a successful Connect
+				for _, st := range c.cellStores[cell] {
+					call, _ := c.asCall(st.Val)
+					if call == nil || !isStdCall(&call.Call, "context", "Background") {
+						continue
+					}
+					at := ssa.Instruction(st)
+					if st.Parent() != m.F {
+						// inside a closure: where that closure is handed to sync.Once.Do in the loop
+						at = nil
+						for _, mc := range c.makeClosures[st.Parent()] {
+							for _, uu := range *mc.Referrers() {
+								if k, ok := uu.(*ssa.Call); ok && isStdCall(&k.Call, "sync", "Do") && k.Parent() == m.F {
+									at = k
+								}
+							}
+						}
+					}
+					if at == nil {
+						continue
+					}
+					for _, ok := range m.ConnOK {
+						if DominatedByEdge(m.F, at, ok.B, ok.K, PathQ{}) {
+							rebound = at
+						}
+					}
+				}
+				continue
+			}
 			phi, ok := v.(*ssa.Phi)
 			if !ok {
 				continue
